@@ -312,7 +312,11 @@ def compare_block(phasing0, phasing1):
         o0, o1 = orientation(phasing0), orientation(phasing1)
         switches = int(hamming(switch_encoding(o0), switch_encoding(o1)))
         switch_flips = compute_switch_flips(o0, o1)
-        minimum_hamming_distance = int(minimum_hamming_distance)
+        # Like the switch errors and the position-wise agreement, the Hamming distance is taken
+        # on the orientation of the heterozygous genotypes. On the allele strings, a site that is
+        # 0|1 in one file and 0|2 or 1|2 in the other (a genotype difference, counted as such)
+        # would add half an error (truncated) or one error although the phasings agree there.
+        minimum_hamming_distance = min(hamming(o0, o1), hamming(o0, complement(o1)))
     else:
         switches = compute_switch_errors_poly(phasing0, phasing1, matching_pos)
         switch_flips = compute_switch_flips_poly(phasing0, phasing1)
